@@ -651,6 +651,20 @@ func recoverImage(rep *vevid.Report, h history, p *vcrashfs.Point, nt note) {
 		viol("ack-ahead-of-stored-sequence", "replica.localReplicator / tsdb.dataFamily.Flush",
 			fmt.Sprintf("after restart the WAL consumer group is acknowledged up to %d but the flushed data carries sequence %d", ack, stored))
 	}
+	// 1b. the recovered family rejects every sequence at or below the stored one (it must never be applied again,
+	// whatever makes the log hand it out a second time)
+	if stored >= 0 {
+		shard, _ := n.box.DB.GetShard(models.ShardID(1))
+		if fam, err := shard.GetOrCrateDataFamily(familyTime); err == nil {
+			for s := stored; s >= 0 && s >= stored-1; s-- {
+				if fam.ValidateSequence(1, s) {
+					viol("stale-sequence-accepted", "tsdb.dataFamily.ValidateSequence",
+						fmt.Sprintf("after restart the flushed data carries sequence %d, the family accepts sequence %d again", stored, s))
+					fam.CommitSequence(1, s) // releases the sequence lock the accepted validation holds
+				}
+			}
+		}
+	}
 	// 2. every entry appended before the crash is still there
 	minApp := int64(nt.Acked.Appended) - 1
 	if app < minApp {
